@@ -459,18 +459,47 @@ def _truthy_container(f: FuncInfo, node: ast.AST, val: ast.AST) -> bool:
 
 def _len_checked(f: FuncInfo, node: ast.AST, seq: ast.AST) -> bool:
     stx = unparse(seq)
+    # the index expression, when node is seq[<index>]: a test that relates this very index to len(seq) must have the right
+    # relation (index < len on the way in, index >= len on the way out); `i > len(s)` lets i == len(s) through
+    idx_txt = None
+    if isinstance(node, ast.Subscript) and unparse(node.value) == stx and not isinstance(node.slice, ast.Slice) and not isinstance(node.slice, ast.Constant):
+        idx_txt = unparse(node.slice)
 
-    def has(t: ast.AST) -> bool:
+    def is_len(e: ast.AST) -> bool:
+        return isinstance(e, ast.Call) and (dotted(e.func) or "") == "len" and bool(e.args) and unparse(e.args[0]) == stx
+
+    def has(t: ast.AST, sense: str = "any") -> bool:
+        """sense: 'in' - t holds where node runs; 'out' - t led to an exit (its negation holds); 'any' - not an index test."""
+        found = False
         for c in [t] + list(ast.walk(t)):
-            if isinstance(c, ast.Call) and (dotted(c.func) or "") == "len" and c.args and unparse(c.args[0]) == stx:
-                return True
+            if isinstance(c, ast.Compare) and len(c.ops) == 1 and idx_txt is not None:
+                l_, r_ = c.left, c.comparators[0]
+                if (is_len(l_) and unparse(r_) == idx_txt) or (is_len(r_) and unparse(l_) == idx_txt):
+                    op = type(c.ops[0])
+                    if op not in (ast.Lt, ast.LtE, ast.Gt, ast.GtE):
+                        found = True  # == / != against the length (a counter that stops at len): as before
+                        continue
+                    idx_left = unparse(l_) == idx_txt
+                    inside = (idx_left and op is ast.Lt) or (not idx_left and op is ast.Gt)  # idx < len
+                    outside = (idx_left and op is ast.GtE) or (not idx_left and op is ast.LtE)  # idx >= len
+                    if sense == "in" and inside:
+                        return True
+                    if sense == "out" and outside:
+                        return True
+                    if sense == "any" and (inside or outside):
+                        return True
+                    return False  # the index is compared with the length, but not in a way that keeps it inside
+            if is_len(c):
+                found = True
+        if found:
+            return True
         return isinstance(t, (ast.Name, ast.Attribute)) and unparse(t) == stx  # truthiness: non-empty
 
     for (t, pol) in _guard_tests(f, node):
-        if has(t):
+        if has(t, "in" if pol else "out"):
             return True
     for t in _prior_exits(f, node):
-        if has(t) or (isinstance(t, ast.UnaryOp) and has(t.operand)):
+        if has(t, "out") or (isinstance(t, ast.UnaryOp) and has(t.operand, "in")):
             return True
     st = _stmt_of(f, node)
     scope = st if st is not None else f.node
@@ -479,12 +508,12 @@ def _len_checked(f: FuncInfo, node: ast.AST, seq: ast.AST) -> bool:
             # `len(s) > k and s[k]` / `len(s) == 0 or s[0]`: an earlier operand mentions the length
             vals = list(n.values)
             for i, v in enumerate(vals):
-                if any(x is node for x in ast.walk(v)) and any(has(p) for p in vals[:i]):
+                if any(x is node for x in ast.walk(v)) and any(has(p, "in" if isinstance(n.op, ast.And) else "out") for p in vals[:i]):
                     return True
-        if isinstance(n, ast.IfExp) and any(x is node for x in ast.walk(n.body)) and has(n.test):
+        if isinstance(n, ast.IfExp) and any(x is node for x in ast.walk(n.body)) and has(n.test, "in"):
             return True
     for n in walk_no_nested(f.node):
-        if isinstance(n, ast.Assert) and has(n.test) and getattr(n, "lineno", 0) < getattr(node, "lineno", 10**9):
+        if isinstance(n, ast.Assert) and has(n.test, "in") and getattr(n, "lineno", 0) < getattr(node, "lineno", 10**9):
             return True
     return False
 
